@@ -62,7 +62,7 @@ def main():
         "engines": [
             {"name": "lean-proof+correspondence", "path": "/verif/lean, /verif/harness, /verif/tools",
              "serves_properties": sorted(TEXTS),
-             "kind_free_text": "Lean 4 model + specification + theorems (lake build, #print axioms audit, leanchecker in thorough); T1 facts regenerated from the Go source by harness/cmd/extract + tools/gen_lean.py; T2 correspondence Go (hooks, -tags verif) vs compiled Lean model driver vs Lean specification, orchestrated by tools/check.py"}
+             "kind_free_text": "Lean 4 model + specification + theorems (lake build, #print axioms audit, leanchecker in thorough); T0 pure functions translated Go->Lean by harness/cmd/go2lean and tied to the model by theorems (Props/*Tie); T1 facts regenerated from the Go source by harness/cmd/extract + tools/gen_lean.py; T2 correspondence Go (hooks, -tags verif) vs compiled Lean model driver vs Lean specification, orchestrated by tools/check.py"}
         ],
         "checks": checks,
         "not_applicable": [],
